@@ -651,5 +651,44 @@ def State.updateMetadata (s : State) (enc : String → String) (now : Int) : Sta
       let r := t.updateMeta s.cfg enc now true
       (acc.1.set kv.1 r.1, acc.2 ++ r.2)) (s, [])
 
+/-! ## Histories of cache API calls -/
+
+inductive Op where
+  | add (name : String)
+  | remove (name : String) (now : Int)
+  | reset (name : String) (now : Int)
+  | sync (name : String) (now : Int)
+  | connect (name : String) (now : Int)
+  | connectError (name msg : String) (now : Int)
+  | update (now : Int) (prefixNil : Bool) (n : Noti)
+  | updateMetadata (now : Int)
+
+/-- one API call: new state, result class (of `GnmiUpdate`; `ok` for the others) and the feed
+events in callback order -/
+def State.step (enc : String → String) (s : State) : Op → State × Res × List Event
+  | .add name => (s.add name, .ok, [])
+  | .remove name now => let r := s.remove name now; (r.1, .ok, r.2)
+  | .reset name now => let r := s.reset enc name now; (r.1, .ok, r.2)
+  | .sync name now => let r := s.sync enc name now; (r.1, .ok, r.2)
+  | .connect name now => let r := s.connect enc name now; (r.1, .ok, r.2)
+  | .connectError name msg now => let r := s.connectError enc name msg now; (r.1, .ok, r.2)
+  | .update now pn n => let r := s.gnmiUpdate now pn n; (r.2.1, r.1, flattenGroups r.2.2)
+  | .updateMetadata now => let r := s.updateMetadata enc now; (r.1, .ok, r.2)
+
+/-- the target an API call is addressed to (`none`: every target) -/
+def Op.target : Op → Option String
+  | .add name => some name
+  | .remove name _ => some name
+  | .reset name _ => some name
+  | .sync name _ => some name
+  | .connect name _ => some name
+  | .connectError name _ _ => some name
+  | .update _ _ n => some n.target
+  | .updateMetadata _ => none
+
+def State.run (enc : String → String) (s : State) : List Op → State
+  | [] => s
+  | op :: ops => State.run enc (s.step enc op).1 ops
+
 end Cache
 end Gnmi
